@@ -780,6 +780,10 @@ func (r *runner) errorRun() (string, string) {
 	if d := r.imageInvariant(r.expect, tag); d != "" {
 		return "oracle:partial_dump_has_manifest", d
 	}
+	if exists(filepath.Join(r.out, "manifest.json")) {
+		// the call reported failure: the caller has been told there is no dump, so there must be no manifest
+		return "oracle:error_but_manifest_published", fmt.Sprintf("%s: Dump returned %v although it had published manifest.json", tag, err)
+	}
 	pre := stor.SnapshotDir(r.out)
 	ck, hadCk := r.readCheckpoint()
 	plan2 := simos.Plan{}
